@@ -440,6 +440,14 @@ S(id="RG.rules", props=["C10", "C14"], spec="rgloop.spec.c", harness="h_rg_rules
        "the start symbol is known (what the NO_RULES test of RG.tail relies on)",
   assumes=["A7': negative codes are never in the table here", "R8: region cut on every run, loop body replaced by a call of the R7 function (proved by RG.rule, used here through a reduced contract)",
            "termination of the loop is the callback's business (no variant)"])
+S(id="RG.check", props=["C10"], spec="rgcheck.spec.c", harness="h_check", mode="U", loops=True, n_loops=2, canaries=2, enforce=["check_grammar/check_c"],
+  replace=["verif_error_exit/err_check_c", "set_empty_access_derives/flags1_c", "set_loop_p/flags2_c", "create_first_follow_sets/first_follow_c", "nonterm_get/nonterm_get_c"],
+  functions=["check_grammar"],
+  what="given the flags (arbitrary values on real nonterminal records): both flag passes run, in order, before anything is tested; NONTERM_DERIVATION / UNACCESSIBLE_NONTERM / "
+       "LOOP_NONTERM are raised only for a nonterminal that has that defect (non-strict: only for the start symbol of the user grammar), in that order of precedence; on normal end "
+       "no nonterminal of the table has a defect the mode looks for (ghost index), and only then FIRST / FOLLOW are made",
+  assumes=["the flags themselves (least fixpoints) are RG.verdict.native's business (bounded); nonterm_get answers record n of the table or NULL from the count on",
+           "table size capped by the harness array (64 records); both loops closed by contracts"])
 S(id="T.rule.add", props=["C12", "C10"], spec="symtab.spec.c", harness="h_rule_add", mode="L", canaries=2, enforce=["rule_new_symb_add/rule_add_c"],
   replace=["_OS_expand_memory/os_expand_keep_c"], functions=["rule_new_symb_add"], params={"quick": {"CAP": 8, "RCAP": 3}, "thorough": {"CAP": 8, "RCAP": 3}}, mem=32, timeout=1500, tier="thorough",
   bound="the open array holds <= 3 symbols before the call; the function has no loop (thorough tier only: 5 minutes)",
